@@ -142,7 +142,9 @@ pub fn gen_spline_case<T: Flt>(rng: &mut Rng, o: &SplineOpts) -> (Spec1<T>, Labe
             }
         }
     };
-    if matches!(boundary, Bound::Periodic) {
+    // periodic data sets need equal end rows; now and then a non-periodic one has them too
+    // (data that "looks periodic" must still get the boundary condition that was asked for)
+    if matches!(boundary, Bound::Periodic) || rng.chance(0.06) {
         let first = data.index_axis(Axis(0), 0).to_owned();
         data.index_axis_mut(Axis(0), n - 1).assign(&first);
     }
@@ -339,6 +341,8 @@ pub fn gen_linear_case<T: Flt>(rng: &mut Rng, o: &LinearOpts) -> (Spec1<T>, Labe
     );
     spec.dynamic = rng.chance(0.2);
     random_layouts1(rng, &mut spec);
+    // now and then through the unchecked constructor (the inputs are valid)
+    spec.ctor_unchecked = rng.chance(0.12);
     (spec, labels)
 }
 
@@ -376,7 +380,12 @@ pub struct Labels2 {
 
 pub fn gen_grid_case<T: Flt>(rng: &mut Rng, o: &GridOpts) -> (Spec2<T>, Labels2) {
     let nx = pick_n_long(rng, 2, o.max_nx.max(2), if o.max_nx >= 12 { 65 } else { 0 });
-    let ny = pick_n_long(rng, 2, o.max_ny.max(2), if o.max_ny >= 9 { 33 } else { 0 });
+    let mut ny = pick_n_long(rng, 2, o.max_ny.max(2), if o.max_ny >= 9 { 33 } else { 0 });
+    // a square grid whose axes share both end values but not the interior knots
+    let twin_ends = nx >= 3 && nx <= o.max_ny.max(2) && rng.chance(0.08);
+    if twin_ends {
+        ny = nx;
+    }
     let classes: &[AxisClass] = if o.allow_cluster {
         &AxisClass::ALL
     } else {
@@ -391,10 +400,21 @@ pub fn gen_grid_case<T: Flt>(rng: &mut Rng, o: &GridOpts) -> (Spec2<T>, Labels2)
     } else {
         gen_axis(rng, nx, cx, &AxisOpts::linear())
     };
-    let y: Vec<T> = if defy {
-        (0..ny).map(|i| T::of(i as f64)).collect()
+    let (defy, y): (bool, Vec<T>) = if twin_ends {
+        // y[i] strictly between x[i] and x[i+1] for interior i; same first and last value
+        let mut y = x.clone();
+        for i in 1..nx - 1 {
+            let t = *rng.pick(&[0.25, 0.5, 0.75]);
+            let v = x[i] + (x[i + 1] - x[i]) * T::of(t);
+            if v > x[i] && v < x[i + 1] {
+                y[i] = v;
+            }
+        }
+        (false, y)
+    } else if defy {
+        (true, (0..ny).map(|i| T::of(i as f64)).collect())
     } else {
-        gen_axis(rng, ny, cy, &AxisOpts::linear())
+        (false, gen_axis(rng, ny, cy, &AxisOpts::linear()))
     };
     let lanes = gen_lane_shape(rng, o.max_lane_rank, o.allow_zero_lanes);
     let mut shape = vec![nx, ny];
@@ -402,7 +422,7 @@ pub fn gen_grid_case<T: Flt>(rng: &mut Rng, o: &GridOpts) -> (Spec2<T>, Labels2)
     let dclass = *rng.pick(&DataClass::ALL);
     let mut data = gen_data::<T>(rng, &shape, dclass, (-100, 100));
     let (mut x, mut y) = (x, y);
-    if o.extreme_magnitudes && !defx && !defy && rng.chance(0.15) {
+    if o.extreme_magnitudes && !defx && !defy && !twin_ends && rng.chance(0.15) {
         let opts = AxisOpts { max_ratio: 65536.0, scale_exp: (0, 0) };
         let (c1, c2) = (*rng.pick(&AxisClass::SMOOTH), *rng.pick(&AxisClass::SMOOTH));
         let bx: Vec<T> = gen_axis(rng, nx, c1, &opts);
@@ -427,7 +447,7 @@ pub fn gen_grid_case<T: Flt>(rng: &mut Rng, o: &GridOpts) -> (Spec2<T>, Labels2)
     }
     let labels = Labels2 {
         axis_x: if defx { "default-index".into() } else { cx.name().into() },
-        axis_y: if defy { "default-index".into() } else { cy.name().into() },
+        axis_y: if twin_ends { "same-ends-as-x".into() } else if defy { "default-index".into() } else { cy.name().into() },
         data: dclass.name().into(),
         grid: format!("{}x{}", nx.min(9), ny.min(9)),
         lanes: format!("{:?}", lanes),
@@ -442,6 +462,7 @@ pub fn gen_grid_case<T: Flt>(rng: &mut Rng, o: &GridOpts) -> (Spec2<T>, Labels2)
     );
     spec.dynamic = rng.chance(0.2);
     random_layouts2(rng, &mut spec);
+    spec.ctor_unchecked = rng.chance(0.12);
     (spec, labels)
 }
 
